@@ -230,6 +230,19 @@ def main():
                 r2["_inst"], r2["_mutant"] = r["_inst"], r["_mutant"]
                 r2["retried_after"] = r["reason"][:200]
                 results[k] = r2
+        # The code's loop structure no longer matches the loop contracts (a loop was added, merged or removed): the unbounded
+        # proof cannot be attempted.  Stand-in: the same function contract in small scope with all loops unwound.  A failure
+        # there is a genuine execution (=> violation with a concrete counterexample); a pass leaves the instance undecided.
+        for k, r in enumerate(list(results)):
+            if r["status"] == "machinery" and not r["_mutant"] and re.search(r"loop structure changed|does not exist \(loop", r["reason"]) and r["_inst"].get("defines_small"):
+                inst2 = dict(r["_inst"]); inst2["loops"] = []; inst2["unwind_loops"] = []
+                r2 = unitrun.run_instance(inst2, a.tier, scratch, True, None, None, False, True)
+                if r2["status"] == "fail":
+                    r2["_inst"], r2["_mutant"] = r["_inst"], None
+                    r2["bounded_fallback"] = "loop contracts no longer match the code (%s); failure found by the bounded stand-in: small scope, loops unwound" % r["reason"][:160]
+                    results[k] = r2
+                else:
+                    r["reason"] += " | bounded stand-in (small scope, loops unwound): %s %s" % (r2["status"], r2["reason"][:120])
         bounded = [run_bounded(b, a.tier, scratch) for b in pdoc.get("bounded", []) if not a.only]
 
         known = load_known()
